@@ -234,7 +234,12 @@ func c04SQL(set c04Set, kind string) string {
 		grp = append(grp, "SessionWindow('2s')")
 		with = " WITH (TIMESTAMP='ts', TIMEUNIT='ms')"
 	case "global":
-		grp = append(grp, "GLOBAL WINDOW TRIGGER WHEN count(*) >= 2")
+		if len(set.Name)%2 == 0 {
+			// a trigger over two aggregates (per-group trigger state of both)
+			grp = append(grp, "GLOBAL WINDOW TRIGGER WHEN count(*) >= 2 AND max(id) > 0")
+		} else {
+			grp = append(grp, "GLOBAL WINDOW TRIGGER WHEN count(*) >= 2")
+		}
 	}
 	if set.WinFirst {
 		n := len(grp) - 1
